@@ -18,11 +18,11 @@ CHECKS = {
    text="Proof (Coq, all event lists incl. crashes right after an acknowledgement, cache loss/rollback/take-over, faults, any number of instances): every acknowledgement (sequenced or served from the dedup cache) names an index that in every committed tree large enough holds an entry with the same dedup identity, that timestamp and that index, and acknowledgements are never retracted (second inductive invariant layer Inv2 + monotonicity). Partial: coverage by the checkpoint READABLE in object storage at that moment is decided per run by the monitor C02.ack (it is false with two live instances: known finding C06); SCT signature verification by ct-go is exercised in C09.",
    ref="5 (C02)", note=SEQ_NOTE, technique="Coq inductive invariant (acks/caches name committed leaves) + differential histories with a per-acknowledgement storage monitor"),
  "C03": dict(
-   text="Proof (Coq, partial): crashes are ordinary events of the quantified event lists; proved for all of them: no acknowledged entry is lost (stays acknowledged, stays in every later committed tree) and nothing but staging bundles is ever discarded. Recoverability itself (restart loads, all tiles of the lock tree present, sequencing continues; bundle discarded only after the published checkpoint caught up) is decided per run: the harness crashes real instances at every kind of operation of a round and of LoadLog (incl. subsets of the parallel batch), restarts, audits every tile and runs another round; the model must predict every operation.",
-   ref="5 (C03)", note=SEQ_NOTE + " Storage-completeness invariant I3 is not yet a theorem.", technique="Coq theorems over all event lists with crash events (C03_partial_*) + crash-point differential histories and storage audit"),
+   text="Proof (Coq): crashes are ordinary events (between any two operations of a round or of a recovery, any subset of the parallel batch applied, repeatedly), so the all-event-list theorems cover every crash point at every size. Proved without any hash assumption, for all untampered event lists: whenever an instance has loaded (incl. after crashes during sequencing or during an earlier recovery) every tile of the tree it loaded is present with exactly the prescribed bytes (third invariant layer Inv3, C03_loaded_complete); every committed tree is complete or completable from its present staging bundle (C03_staging_bundles); no acknowledged entry is ever lost; only staging bundles are discarded. Not theorems: termination of LoadLog after a crash (liveness) and 'discard only after the published checkpoint caught up' — decided per run by crash-point histories (thorough: every crash position of a round x every crash position of the recovery), audit and monitor C03.discard.",
+   ref="5 (C03), 9.2", note=SEQ_NOTE, technique="Coq inductive invariants (Inv, Inv2, Inv3: storage completeness/exactness) over all event lists with crash events + crash-point differential histories with storage audit"),
  "C04": dict(
-   text="Proof (Coq, partial): only staging bundles are ever discarded; an immutable object is never replaced by different bytes. Completeness and byte-exactness of every tile behind the published checkpoint are decided per run: the extracted model predicts the digest of every uploaded object from the specification-level rendering of the leaf list (operation-level equality), and the monitor C04.audit re-reads all data/names/hash tiles and issuers behind every effective checkpoint upload against an independent RFC 6962 tree.",
-   ref="5 (C04)", note=SEQ_NOTE + " Storage-completeness invariant I3 is not yet a theorem; names tiles only for unparseable certificates.", technique="Coq theorems (C04_partial_*) + byte-level digest correspondence of every upload + full storage audit monitor"),
+   text="Proof (Coq, every hash function, all untampered event lists = every intermediate storage state of every history, any number of instances, all faults/crashes): the published checkpoint's tree is fully backed by hash, data and names tiles with exactly the bytes prescribed for the leaf sequence (C04_complete_exact); every object under any tile path is the canonical rendering of the committed leaf sequence (C04_exact_everything); only staging bundles are discarded; immutable objects are never replaced by different bytes. The invariant (Inv3) rests on immutability, not on collision-freeness (which is shown to be unavailable for the uncovered fields). Tie: the extracted model predicts the digest of every uploaded object (operation-level equality) and monitor C04.audit re-reads everything behind every effective checkpoint upload (incl. issuers) against an independent RFC 6962 tree.",
+   ref="5 (C04), 9.2", note=SEQ_NOTE + " Theorems are stated for fewer than 2^63 events (tile paths are injective on int64 coordinates only). Referenced issuers and names-tile JSON are monitor/correspondence-checked, not theorems.", technique="Coq inductive invariant Inv3 (storage completeness and exactness) + byte-level digest correspondence of every upload + full storage audit monitor"),
  "C05": dict(
    text="Proof (Coq) on the protocol model, partial: for all schedules of any number of clients (lost replies, dropped requests, pending calls, reopen) each backend — the SQLite, DynamoDB and ETag clients (content-hash ETags for any injective hash, or version-counter ETags) as client protocols over a server with atomic requests — simulates the by-value compare-and-swap register, so every schedule has a real-time-respecting linearization; the property's five sentences are corollaries; refutations for the pre-fix ETag client, reads without ConsistentRead, by-value comparison under version ETags and SDK retry after A->B->A. An executable linearizability checker is proved sound and complete, extracted, and run window by window on recorded histories of a real SQLite file hammered by goroutines, connections and a killed/restarted child process. Line-level differential of the three real backends (DynamoDB/S3 through protocol-level fake endpoints that also log the wire requests).",
    ref="5 (C05), 0.3", note="Assumed (trusted base): atomicity and durability of single SQLite statements, DynamoDB conditional writes/consistent reads and S3-compatible If-Match (SQLite additionally exercised); empty If-Match = create-only is Tigris-specific; one request per call; the fake endpoints transcribe the Coq server models; Coq kernel, extraction, OCaml/Go drivers. Known finding C05-sdk-retry-aba; ETag missing-log fix b39ed72.",
